@@ -137,45 +137,69 @@ def impl_obs(case):
         return impl_via_validate_data(case)
     from geff.validate.tracks import validate_tracklets
 
+    from harness.corr.C12 import variant_array
+
     dt = np.dtype(case.get("dtype", "int64"))
-    e = np.asarray(case["edges"], dtype=dt).reshape(-1, 2)
+    v = case.get("variant", "plain")
+    arrs = [variant_array(np.asarray(case["nodes"], dtype=dt), v),
+            variant_array(np.asarray(case["edges"], dtype=dt).reshape(-1, 2), v),
+            variant_array(np.asarray(case["labels"], dtype=dt), v)]
+    before = [(a.tobytes(), str(a.dtype), a.shape) for a in arrs]
     try:
-        valid, errors = validate_tracklets(np.asarray(case["nodes"], dtype=dt), e,
-                                           np.asarray(case["labels"], dtype=dt))
+        valid, errors = validate_tracklets(*arrs)
     except Exception as ex:  # noqa: BLE001
         return {"exc": type(ex).__name__}
-    return {"valid": bool(valid), "errors": parse_errors(errors)}
+    out = {"valid": bool(valid), "errors": parse_errors(errors)}
+    if before != [(a.tobytes(), str(a.dtype), a.shape) for a in arrs]:
+        out["modified"] = True
+    return out
+
+
+_MD = []
 
 
 def _memory_geff(case):
     import geff_spec
 
-    md = geff_spec.GeffMetadata(
-        geff_version="1.0.0", directed=True,
-        node_props_metadata={"trk": geff_spec.PropMetadata(identifier="trk", dtype="int64")},
-        edge_props_metadata={}, track_node_props={"tracklet": "trk"},
-    )
+    if not _MD:   # validate_data only reads the metadata: one object per process
+        _MD.append(geff_spec.GeffMetadata(
+            geff_version="1.0.0", directed=True,
+            node_props_metadata={"trk": geff_spec.PropMetadata(identifier="trk", dtype="int64")},
+            edge_props_metadata={}, track_node_props={"tracklet": "trk"},
+        ))
+    md = _MD[0]
+    from harness.corr.C12 import variant_array
+
     miss = case.get("missing")
     dt = np.dtype(case.get("dtype", "int64"))
-    return {"metadata": md, "node_ids": np.asarray(case["nodes"], dtype=dt),
-            "edge_ids": np.asarray(case["edges"], dtype=dt).reshape(-1, 2),
-            "node_props": {"trk": {"values": np.asarray(case["labels"], dtype=dt),
-                                   "missing": None if miss is None else np.asarray(miss, dtype=bool)}},
+    v = case.get("variant", "plain")
+    return {"metadata": md, "node_ids": variant_array(np.asarray(case["nodes"], dtype=dt), v),
+            "edge_ids": variant_array(np.asarray(case["edges"], dtype=dt).reshape(-1, 2), v),
+            "node_props": {"trk": {"values": variant_array(np.asarray(case["labels"], dtype=dt), v),
+                                   "missing": None if miss is None else variant_array(np.asarray(miss, dtype=bool), v)}},
             "edge_props": {}}
 
 
 def impl_via_validate_data(case):
     from geff.validate.data import ValidationConfig, validate_data
 
+    from harness.corr.C12 import snapshot, snapshot_diff
+
+    g = _memory_geff(case)
+    before = snapshot(g)
     try:
-        validate_data(_memory_geff(case), ValidationConfig(tracklet=True))
-        return {"valid": True, "errors": []}
+        validate_data(g, ValidationConfig(tracklet=True))
+        out = {"valid": True, "errors": []}
     except ValueError as ex:
         if len(ex.args) == 2 and str(ex.args[0]).startswith("Found invalid tracklets"):
-            return {"valid": False, "errors": parse_errors(ex.args[1].split("\n"))}
-        return {"exc": "ValueError"}
+            out = {"valid": False, "errors": parse_errors(ex.args[1].split("\n"))}
+        else:
+            out = {"exc": "ValueError"}
     except Exception as ex:  # noqa: BLE001
-        return {"exc": type(ex).__name__}
+        out = {"exc": type(ex).__name__}
+    if snapshot_diff(before, snapshot(g)):
+        out["modified"] = True
+    return out
 
 
 def impl_via_store(case):
@@ -509,6 +533,12 @@ def judge(ck, c, im, mo):
     if c.get("_edit"):
         tag += ":" + c["_edit"]
     ck.case(c, tag, nontrivial=bool(c["edges"]) or len(set(c["labels"])) > 1)
+    if c.get("variant"):
+        vh = ck.extra.setdefault("array_variants", {})
+        vh[c["variant"]] = vh.get(c["variant"], 0) + 1
+    if im.get("modified"):
+        ck.fail("C13:validator-modifies-input", "tracklet validation changed its input arrays (a validator must not modify its input)",
+                c, im, "inputs unchanged")
     if dom:
         expected = {"valid": s_valid, "bad": s_bad}
         if "exc" in im:
@@ -564,9 +594,9 @@ def run(ck: common.Check):
         cases.extend(exhaustive(n, dag_only=False, cyclic_only=True))
     for n in range(1, 5):
         cases.extend(exhaustive_missing(n))
-    for i in range(4000 if ck.quick else 60000):
+    for i in range(3000 if ck.quick else 60000):
         cases.append(random_small_dag(ck.rng, 5 + i % 2))
-    for i in range(5000 if ck.quick else 60000):
+    for i in range(4000 if ck.quick else 60000):
         cases.append(random_forest(ck.rng, nmax=40 if i % 3 else 12, big=(i % 10 == 0)))
     for i in range(60 if ck.quick else 600):
         cases.append(uint64_case(ck.rng))
@@ -581,6 +611,11 @@ def run(ck: common.Check):
         {"nodes": [1, 2, 3], "labels": [5, 5], "edges": [[1, 2]], "missing": None},
     ])
 
+    # every 4th case holds its arrays read-only / non-contiguous / in Fortran order / big-endian
+    from harness.corr.C12 import VARIANTS
+    for i, c in enumerate(cases):
+        if i % 4 == 1 and c.get("dtype") is None and i >= n_corpus:
+            c["variant"] = VARIANTS[1 + (i // 4) % (len(VARIANTS) - 1)]
     impl = common.pmap(impl_obs, cases, chunksize=256)
     drv = ck.driver()
     model = drv.ask([to_req(c) for c in cases])
@@ -611,7 +646,7 @@ def run(ck: common.Check):
     from harness.corr.C12 import lineage_oracle
 
     pool = [c for c in cases if c.get("missing") is None and c.get("dtype") is None and c["nodes"] and in_domain(c)]
-    want_n = 1000 if ck.quick else 8000
+    want_n = 400 if ck.quick else 8000
     step = max(1, len(pool) // want_n)
     items, meta_items = [], []
     for gc in grid_corpus:
@@ -646,6 +681,8 @@ def run(ck: common.Check):
         "C13_iff assumes unique node ids (validated separately, C12) and an acyclic graph (the property's domain); "
         "on cyclic graphs the validator additionally rejects tracklets that are directed cycles",
         "the node named after 'extend backward/forward to node' is compared with the model too (not part of the property)",
+        "array layout (read-only, non-contiguous, Fortran order, big-endian) is beneath the model; a quarter of the cases "
+        "hold their arrays in one of these forms, and every call is checked not to modify its input arrays",
     ]
 
 
